@@ -335,6 +335,11 @@ def _norm(sb):
     return c if c is not None else sb
 
 
+def _norms(s):
+    c = s.concrete()
+    return c if c is not None else s
+
+
 def _t8(x):
     return z3.BitVecVal(x, 8) if isinstance(x, int) else x
 
@@ -465,19 +470,217 @@ class SStr:
             return True
         return bool(SStr(self.c[-len(p):]) == p)
 
-    def _case(self, up):
-        out = []
+    # ---- searching / splitting (forks on undecided character tests)
+    def _match_at(self, i, sub):
+        """does self[i:i+len(sub)] == sub ?  (sub: SStr)"""
+        if i + len(sub) > len(self.c):
+            return False
+        r = SStr(self.c[i:i + len(sub)]) == sub
+        return bool(r)
+
+    def find(self, sub, start=0):
+        sub = SStr.lift(sub)
+        for i in range(start, len(self.c) - len(sub) + 1):
+            if self._match_at(i, sub):
+                return i
+        return -1
+
+    def index(self, sub, start=0):
+        i = self.find(sub, start)
+        if i < 0:
+            raise ValueError("substring not found")
+        return i
+
+    def rfind(self, sub):
+        sub = SStr.lift(sub)
+        for i in range(len(self.c) - len(sub), -1, -1):
+            if self._match_at(i, sub):
+                return i
+        return -1
+
+    def count(self, sub):
+        sub = SStr.lift(sub)
+        n, i = 0, 0
+        while i <= len(self.c) - len(sub):
+            if len(sub) and self._match_at(i, sub):
+                n += 1
+                i += len(sub)
+            else:
+                i += 1
+        return n
+
+    def split(self, sep=None, maxsplit=-1):
+        if sep is None:
+            raise Unsupported("whitespace split of symbolic text")
+        sep = SStr.lift(sep)
+        if len(sep) == 0:
+            raise ValueError("empty separator")
+        parts, start, i, n = [], 0, 0, 0
+        while i <= len(self.c) - len(sep):
+            if (maxsplit < 0 or n < maxsplit) and self._match_at(i, sep):
+                parts.append(_norms(SStr(self.c[start:i], self.wd[start:i])))
+                i += len(sep)
+                start = i
+                n += 1
+            else:
+                i += 1
+        parts.append(_norms(SStr(self.c[start:], self.wd[start:])))
+        return parts
+
+    def rsplit(self, sep=None, maxsplit=-1):
+        if sep is None:
+            raise Unsupported("whitespace split of symbolic text")
+        if maxsplit < 0:
+            return self.split(sep)
+        sep = SStr.lift(sep)
+        parts, end, i, n = [], len(self.c), len(self.c) - len(sep), 0
+        while i >= 0:
+            if n < maxsplit and self._match_at(i, sep):
+                parts.insert(0, _norms(SStr(self.c[i + len(sep):end], self.wd[i + len(sep):end])))
+                end = i
+                i -= len(sep)
+                n += 1
+            else:
+                i -= 1
+        parts.insert(0, _norms(SStr(self.c[:end], self.wd[:end])))
+        return parts
+
+    def partition(self, sep):
+        i = self.find(sep)
+        if i < 0:
+            return _norms(self), "", ""
+        L = len(SStr.lift(sep))
+        return _norms(SStr(self.c[:i], self.wd[:i])), sep, _norms(SStr(self.c[i + L:], self.wd[i + L:]))
+
+    def rpartition(self, sep):
+        i = self.rfind(sep)
+        if i < 0:
+            return "", "", _norms(self)
+        L = len(SStr.lift(sep))
+        return _norms(SStr(self.c[:i], self.wd[:i])), sep, _norms(SStr(self.c[i + L:], self.wd[i + L:]))
+
+    def replace(self, old, new, count=-1):
+        old, new = SStr.lift(old), SStr.lift(new)
+        if len(old) == 0:
+            raise Unsupported("replace of the empty string")
+        out_c, out_w, i, n = [], [], 0, 0
+        while i < len(self.c):
+            if (count < 0 or n < count) and self._match_at(i, old):
+                out_c += new.c
+                out_w += new.wd
+                i += len(old)
+                n += 1
+            else:
+                out_c.append(self.c[i])
+                out_w.append(self.wd[i])
+                i += 1
+        return _norms(SStr(out_c, out_w))
+
+    def _char_in(self, ch, chars):
+        if isinstance(ch, str):
+            return ch in chars
+        return bool(SBool(z3.Or(*[ch == ord(x) for x in chars]))) if chars else False
+
+    def strip(self, chars=" \t\n\r\x0b\x0c"):
+        return SStr.lift(self.lstrip(chars)).rstrip(chars)
+
+    def lstrip(self, chars=" \t\n\r\x0b\x0c"):
+        i = 0
+        while i < len(self.c) and self._char_in(self.c[i], chars):
+            i += 1
+        return _norms(SStr(self.c[i:], self.wd[i:]))
+
+    def rstrip(self, chars=" \t\n\r\x0b\x0c"):
+        j = len(self.c)
+        while j > 0 and self._char_in(self.c[j - 1], chars):
+            j -= 1
+        return _norms(SStr(self.c[:j], self.wd[:j]))
+
+    def isdigit(self):
+        """ASCII digits only are modelled; a symbolic non-ASCII character makes the path Unsupported"""
+        if not self.c:
+            return False
         for ch in self.c:
             if isinstance(ch, str):
-                out.append(ch.upper() if up else ch.lower())
-                if len(out[-1]) != 1:
-                    raise Unsupported("case mapping changes the length")
+                if not ch.isdigit():
+                    return False
                 continue
-            if not sym._forced(z3.ULT(ch, 128)):
-                raise Unsupported("case mapping of a possibly non-ASCII symbolic character")
-            lo, hi, d = (0x61, 0x7A, -32) if up else (0x41, 0x5A, 32)
-            out.append(z3.If(z3.And(z3.UGE(ch, lo), z3.ULE(ch, hi)), ch + z3.BitVecVal(d % (1 << 21), 21), ch))
-        return SStr(out, self.wd)
+            if bool(SBool(z3.And(z3.UGE(ch, 48), z3.ULE(ch, 57)))):
+                continue
+            if bool(SBool(z3.ULT(ch, 128))):
+                return False
+            raise Unsupported("isdigit of a possibly non-ASCII symbolic character")
+        return True
+
+    def isascii(self):
+        for ch in self.c:
+            if isinstance(ch, str):
+                if not ch.isascii():
+                    return False
+            elif not bool(SBool(z3.ULT(ch, 128))):
+                return False
+        return True
+
+    def join(self, parts):
+        out = SStr([])
+        for i, p in enumerate(parts):
+            if i:
+                out = out + self
+            out = out + p
+        return _norms(out)
+
+    def __mod__(self, args):
+        raise Unsupported("%-formatting with a symbolic format string")
+
+    def __lt__(self, o):
+        raise Unsupported("ordering of symbolic text")
+
+    _CASE_SPECIAL = {}
+
+    @classmethod
+    def _case_special(cls, up):
+        """non-ASCII code points whose upper()/lower() contains an ASCII character or is not one character long"""
+        if up not in cls._CASE_SPECIAL:
+            sp = {}
+            for cp in range(0x80, 0x110000):
+                if 0xD800 <= cp <= 0xDFFF:
+                    continue
+                m = chr(cp).upper() if up else chr(cp).lower()
+                if len(m) != 1 or ord(m) < 128:
+                    sp[cp] = m
+            cls._CASE_SPECIAL[up] = sp
+        return cls._CASE_SPECIAL[up]
+
+    def _case(self, up):
+        out, wd = [], []
+        for ch, w in zip(self.c, self.wd):
+            if isinstance(ch, str):
+                m = ch.upper() if up else ch.lower()
+                out += list(m)
+                wd += [None] * len(m)
+                continue
+            if bool(SBool(z3.ULT(ch, 128))):
+                lo, hi, d = (0x61, 0x7A, -32) if up else (0x41, 0x5A, 32)
+                out.append(z3.If(z3.And(z3.UGE(ch, lo), z3.ULE(ch, hi)), ch + z3.BitVecVal(d % (1 << 21), 21), ch))
+                wd.append(w)
+                continue
+            sp = self._case_special(up)
+            hit = None
+            if bool(SBool(z3.Or(*[ch == cp for cp in sp]))):
+                for cp, m in sp.items():
+                    if bool(SBool(ch == cp)):
+                        hit = m
+                        break
+            if hit is not None:
+                out += list(hit)
+                wd += [None] * len(hit)
+                continue
+            # any other non-ASCII character maps to one non-ASCII character (which one is left unconstrained)
+            f = z3.BitVec(sym.fresh("casemap"), 21)
+            sym.assume(z3.And(z3.UGE(f, 128), z3.ULE(f, 0x10FFFF)))
+            out.append(f)
+            wd.append(None)
+        return SStr(out, wd)
 
     def upper(self):
         return self._case(True)
@@ -494,7 +697,16 @@ class SStr:
                     out += list(ch.encode("utf-8"))
                     continue
                 if w is None:
-                    raise Unsupported("utf-8 of char with unknown width")
+                    if bool(SBool(z3.ULT(ch, 0x80))):
+                        w = 1
+                    elif bool(SBool(z3.ULT(ch, 0x800))):
+                        w = 2
+                    elif bool(SBool(z3.ULT(ch, 0x10000))):
+                        if bool(SBool(z3.And(z3.UGE(ch, 0xD800), z3.ULE(ch, 0xDFFF)))):
+                            raise UnicodeEncodeError("utf-8", "\ud800", 0, 1, "surrogates not allowed")
+                        w = 3
+                    else:
+                        w = 4
                 E = lambda hi, lo: z3.Extract(hi, lo, ch)  # noqa
                 C = lambda v, n: z3.BitVecVal(v, n)  # noqa
                 if w == 1:
